@@ -67,11 +67,15 @@ def faults(rng, base_decls):
     # complex value for int / float variables
     for ty in ("int", "float"):
         for what, e in (("literal", "1+2j"), ("literal-pure", "2j"), ("computed", "2*1j"), ("computed-variable", "c_*2"),
-                        ("variable", "c_"), ("power", "1j**3")):
+                        ("variable", "c_"), ("power", "1j**3"),
+                        # complex values whose imaginary part happens to be zero are complex all the same
+                        ("zero-imaginary-product", "1j*1j"), ("zero-imaginary-difference", "2j - 2j"),
+                        ("zero-imaginary-literal", "1+0j"), ("zero-imaginary-square", "c_*c_ - c_*c_")):
             f.append(("complex-to-" + ty, "scalar:" + what, "%s w_ = %s\n" % (ty, e)))
             f.append(("complex-to-" + ty, "array:" + what, "%s array B_ =\n    1, %s\n" % (ty, e)))
     # loop values not of the loop type
     for ty, bad in (("int", '"a"'), ("int", "2.5"), ("int", "1j"), ("int", "f_"), ("float", '"a"'), ("float", "c_"),
+                    ("int", "2.00001"), ("int", "2.9999999999999996"), ("int", "0.07*100"), ("int", "100000.4"), ("int", "1e-9"),
                     ("str", "1"), ("str", "n_"), ("bool", '"a"'), ("bool", "2")):
         f.append(("loop-value", "%s:%s" % (ty, bad), "for %s m_ in [%s]\n    G(m_) | 0\n" % (ty, bad)))
         good = {"int": "1", "float": "0.5", "str": '"s"', "bool": "True"}[ty]
